@@ -17,6 +17,7 @@ open DaeVerif.C19
 
 /-! ## A. Structures: size, offsets, widths, signedness, padding -/
 
+set_option maxRecDepth 200000 in
 /-- **Headline (layouts).** For every hand-paired (C record, Go type) and every GOARCH on which the
 pairing is required (stub types: the nine 64-bit arches; hand-written real-build types and the
 `PARAM` literal: all thirteen arches of the release matrix), and additionally under the
@@ -29,6 +30,7 @@ theorem layouts_agree :
 
 -- non-vacuity: the obligation list is not empty and contains the key type on both the memory and
 -- the wire layout; and the predicate can fail (a pairing against the wrong record is rejected)
+set_option maxRecDepth 200000 in
 example : layoutObligations.length > 100 := by decide
 example : pairOk Gen.cRecs (goRecsFor "amd64")
     { c := "redirect_entry", go := "stub.bpfTuplesKey", fields := [], cAlt := [], wire := false } = false := by decide
@@ -111,6 +113,7 @@ example : (genGo Gen.specData).matchTypes.length > 3 := by decide
 (a spec edit without regeneration, or a hand edit of one generated file, breaks this). -/
 theorem generated_files_match_spec : goFileMatchesSpec = true ∧ cFileMatchesSpec = true := by decide
 
+set_option maxRecDepth 200000 in
 /-- **Headline (constants).** Every shared enumeration value and limit has the same numeric value on
 both sides: everything the generator emits for the current spec, and the hand-paired limits. -/
 theorem consts_agree : ∀ x ∈ specConstPairs ++ fixedConstPairs, constPairOk x = true := by decide
@@ -165,8 +168,8 @@ theorem reversed_key_bytes (e : Endian) (f : Flow) (mapped : Bool) (hf : f.WF) :
     refine ⟨?_, h3, h2, h5, h4, h6⟩
     cases hv : f.v4 <;> simp_all [Flow.reverse]
   have h := tuples_key_bytes e f.reverse mapped hr
-  have e1 : f.reverse.goSrc mapped = f.goDst mapped := by simp [Flow.reverse, Flow.goSrc, Flow.goDst]
-  have e2 : f.reverse.goDst mapped = f.goSrc mapped := by simp [Flow.reverse, Flow.goSrc, Flow.goDst]
+  have e1 : f.reverse.goSrc mapped = f.goDst mapped := rfl
+  have e2 : f.reverse.goDst mapped = f.goSrc mapped := rfl
   rw [e1, e2] at h
   rw [show f.proto = f.reverse.proto from rfl, h]
   obtain ⟨hlen, _, _, _, _, _⟩ := hf
@@ -210,7 +213,10 @@ theorem connectivity_key_in_range (outbound : Nat) (t : NetworkType) (ho : outbo
   have d1 : goConstNat "control.outboundConnectivityDomainDnsUDP" = 1 := by decide
   have d2 : goConstNat "control.outboundConnectivityDomainDataUDP" = 2 := by decide
   have hd : goDomainIdx t ≤ 2 := by
-    unfold goDomainIdx; rw [d0, d1, d2]; split <;> [omega; (split <;> omega)]
+    unfold goDomainIdx; rw [d0, d1, d2]
+    split
+    · omega
+    · split <;> omega
   rw [hm]
   unfold goConnKey
   rw [h6, h2]
@@ -230,7 +236,10 @@ theorem connectivity_key_injective (o o' : Nat) (t t' : NetworkType) (ho : o < 2
   have d1 : goConstNat "control.outboundConnectivityDomainDnsUDP" = 1 := by decide
   have d2 : goConstNat "control.outboundConnectivityDomainDataUDP" = 2 := by decide
   have hd : ∀ x : NetworkType, goDomainIdx x ≤ 2 := by
-    intro x; unfold goDomainIdx; rw [d0, d1, d2]; split <;> [omega; (split <;> omega)]
+    intro x; unfold goDomainIdx; rw [d0, d1, d2]
+    split
+    · omega
+    · split <;> omega
   unfold goConnKey at h
   rw [h6, h2] at h
   have b1 := hd t
